@@ -8,7 +8,7 @@ shutil.copy(wt+'/seed/patch.diff',d+'/patch.diff')
 for f in glob.glob(wt+'/seed/*'):
     if f.endswith('patch.diff'): continue
     shutil.copy(f,d+'/'+os.path.basename(f)+('.txt' if f.endswith('_test.go') else ''))
-base=subprocess.check_output(['git','-C','/repo','log','--format=%h','-1']).decode().strip()
+base=subprocess.check_output(['git','-C',wt,'log','--format=%h','-1']).decode().strip()
 meta={"id":sid,"breaks_property":prop,"base_commit":base,"needs_to_manifest":needs,
  "confirmed":{"how":"tools/seedconfirm.sh in the agent's scratch worktree: module tests pass with the change (demo excluded); demo fails with the change; demo passes after `git apply -R seed/patch.diff`","result":"confirmed"},
  "demo":"see README.md (the *_test.go.txt file is the demonstration; copy it to the path named there, without the .txt suffix)",
